@@ -77,11 +77,14 @@ def apply_overlay(tree, group, tier):
         src_text = src_text[: m.end()] + text + src_text[m.end():]
         with open(path, "w") as f:
             f.write(src_text)
-    for rel, modname, src in group["overlay"]:
+    for rel, modname, src in list(group["overlay"]) + list(group.get("overlay_extra", [])):
         crate_src = os.path.join(tree, os.path.dirname(rel))
         dst = os.path.join(crate_src, "verif_%s.rs" % modname)
         # modules nested in non-mod files resolve #[path] relative to <file stem>/ ; use absolute
-        shutil.copy(os.path.join(VERIF, src), dst)
+        with open(os.path.join(VERIF, src)) as f:
+            htext = f.read().replace("@VERIF@", VERIF)
+        with open(dst, "w") as f:
+            f.write(htext)
         with open(os.path.join(tree, rel), "a") as f:
             f.write(
                 '\n#[cfg(kani)]\n#[path = "%s"]\nmod verif_%s;\n' % (dst, modname)
